@@ -28,8 +28,20 @@ func TestMain(m *testing.M) {
 		}
 		return checkCase(&c, false)
 	})
+	// the recorded input of open finding E is replayed without the exclusion that keeps it out of the generated runs
+	stats.RegisterReplay("routing-unfiltered", func(raw json.RawMessage) error {
+		var c Case
+		if err := json.Unmarshal(raw, &c); err != nil {
+			return err
+		}
+		noExclusion = true
+		defer func() { noExclusion = false }()
+		return checkCase(&c, false)
+	})
 	os.Exit(stats.Finish(m.Run()))
 }
+
+var noExclusion bool
 
 func TestReplay(t *testing.T) { stats.RunReplays(t) }
 
@@ -80,7 +92,7 @@ func checkCase(c *Case, count bool) error {
 
 	for _, q := range c.Reqs {
 		pats := r.Patterns(q.Method)
-		if strings.Contains(q.Path, "*") && hasBoth(pats) {
+		if strings.Contains(q.Path, "*") && hasBoth(pats) && !noExclusion {
 			if count {
 				stats.Excluded("open finding E: request contains '*' and the method has both a parameter and a catch-all")
 			}
